@@ -906,7 +906,7 @@ class Interp:
                         return frame['_0'].v
                     elif k == 'unreachable':
                         raise Panic('unreachable reached')
-                except (Unsupported, AssertionError, AttributeError, TypeError, IndexError, KeyError, ValueError) as e:
+                except (Unsupported, Panic, AssertionError, AttributeError, TypeError, IndexError, KeyError, ValueError) as e:
                     if not getattr(e, '_where', None):
                         e._where = '%s bb%d: %s' % (f.name, bb, str(cs)[:300])
                     raise
